@@ -146,7 +146,7 @@ func (r ValueRange) NumberLowerBound() (min Value, inclusive bool) {
 		}
 		return rfn.min, rfn.minInc
 	}
-	return NegativeInfinity, false
+	return NegativeInfinity, true
 }
 
 // NumberUpperBound returns information about the upper bound of the range of
@@ -171,7 +171,7 @@ func (r ValueRange) NumberUpperBound() (max Value, inclusive bool) {
 		}
 		return rfn.max, rfn.maxInc
 	}
-	return PositiveInfinity, false
+	return PositiveInfinity, true
 }
 
 // StringPrefix returns a string that is guaranteed to be the prefix of
